@@ -344,7 +344,7 @@ func traffic(r *rand.Rand, kind string, count int) []byte {
 
 func runC19(res *result) error {
 	res.Rule = "the real proxy binary built from /repo between a test client and a test upstream server on TCP loopback: client-to-server and server-to-client byte streams (valid frames, CRC-valid frames with " +
-		"malformed content, random bytes, payloads and non-RTCM data containing '<' and '>') in random chunkings, as single bursts of several read buffers, and as single bursts of exactly 1..3 times 1024/2048/4096/8192 bytes followed by silence; both directions compared byte for byte; in verbose runs the message log " +
+		"malformed content, random bytes, payloads and non-RTCM data containing '<' and '>') in random chunkings, as single bursts of several read buffers, and as single bursts of exactly 1..3 times 1024/2048/4096/8192 bytes followed by silence; every fourth run the server half-closes after its answer and the client sends afterwards; both directions compared byte for byte; in verbose runs the message log " +
 		"(raw bytes of every message the parser produced, i.e. what the report lists) must be a prefix of the relayed client stream and, for streams of valid frames, all of it; /status/report fetched and the number of '<'/'>' in the body " +
 		"compared with the number the page has when the traffic contains no markup at all; non-trivial = at least 100 bytes relayed; distinct = distinct traffic"
 	tmp, err := os.MkdirTemp("", "verif-c19")
@@ -398,6 +398,9 @@ func runC19(res *result) error {
 		// size, after which the client stays quiet (it waits for the server's answer) - the bytes
 		// must still arrive upstream
 		aligned := i%4 == 2
+		// every fourth run: the server sends its complete answer, shuts down its sending direction and
+		// goes on reading; what the client sends after that must still arrive
+		halfClose := i%4 == 3
 		if aligned {
 			burst = true
 			size := []int{1024, 2048, 4096, 8192}[r.Intn(4)] * (1 + r.Intn(3))
@@ -429,6 +432,9 @@ func runC19(res *result) error {
 					conn.Write(rest[:k])
 					rest = rest[k:]
 					time.Sleep(time.Millisecond)
+				}
+				if tc, ok := conn.(*net.TCPConn); ok && halfClose {
+					tc.CloseWrite()
 				}
 			}()
 			var buf []byte
@@ -478,8 +484,13 @@ func runC19(res *result) error {
 					}
 				}()
 			}
+			gotAll := make(chan struct{})
 			go func() {
 				rest := c2s
+				if halfClose {
+					<-gotAll
+					time.Sleep(150 * time.Millisecond)
+				}
 				if burst {
 					conn.Write(rest)
 					return
@@ -504,6 +515,7 @@ func runC19(res *result) error {
 					break
 				}
 			}
+			close(gotAll)
 			upstream := <-gotUp
 			if polled {
 				close(stopPoll)
@@ -575,6 +587,9 @@ func runC19(res *result) error {
 		}
 		if aligned {
 			kind += fmt.Sprintf("/aligned-%d", len(c2s))
+		}
+		if halfClose {
+			kind += "/server-half-close"
 		}
 		if logged {
 			kind += "/logged"
